@@ -23,6 +23,7 @@ structure Snap where
   cf : List Nat
   cc : String
   dup : Bool
+  miss : Bool := false   -- an operation ran under a context without the InitFunc's context / the init payload
   deriving Repr, Inhabited
 
 inductive Item
@@ -33,8 +34,10 @@ inductive Item
   | cleanup                          -- the harness releases every operation and drops the client
   deriving Repr, Inhabited
 
+/-- `tok` (a non-empty object) and `nul` (JSON null) are, for the transport's control flow, an object and
+no payload: the model - like the property - lets nothing about stop / close depend on the init payload -/
 def parsePayload : String → Payload
-  | "num" => .num | "obj" => .obj | "rej" => .rej | "sub" => .sub | "badq" => .badq | "pq" => .pq
+  | "num" => .num | "obj" => .obj | "tok" => .obj | "rej" => .rej | "sub" => .sub | "badq" => .badq | "pq" => .pq
   | _ => .none
 
 def parseCmd : String → Cmd
@@ -60,7 +63,8 @@ def parseSnap (s : String) : Snap :=
     | [a, b, c] => some (a.toNat!, b == "1", c == "1")
     | _ => none
   let cf := ((kv s "cf").splitOn ",").filterMap fun t => t.toNat?
-  { n := (kv s "n").toNat!, ops := ops, cf := cf, cc := kv s "cc", dup := (s.splitOn " ").contains "dupexec" }
+  { n := (kv s "n").toNat!, ops := ops, cf := cf, cc := kv s "cc", dup := (s.splitOn " ").contains "dupexec",
+    miss := (s.splitOn " ").contains "ctxmiss" }
 
 def parseItems (toks : List String) (snaps : List Snap) : List Item :=
   let rec go (toks : List String) (snaps : List Snap) (acc : List Item) : List Item :=
@@ -126,7 +130,7 @@ def snapOK (o : Snap) (s : State) (fi : Nat) (gone : Bool) : Bool :=
   let cc := if gone then "gone" else match closeFrames s with
     | c :: _ => toString c
     | [] => "open"
-  !o.dup && (gone || o.n == fi) && mops == o.ops && closeFuncs s == o.cf && (o.cc == cc)
+  !o.dup && !o.miss && (gone || o.n == fi) && mops == o.ops && closeFuncs s == o.cf && (o.cc == cc)
 
 structure Key where
   pos : Nat
@@ -205,6 +209,30 @@ partial def search (cx : Ctx) (items : Array Item) (pos : Nat) (s : State) (fi :
     | none => pure ()
   return false
 
+/-- "stopping an operation cancels its context": in every snapshot (taken in a settled state) an operation
+that was started under an id for which the client sent a stop / complete afterwards has a cancelled context -
+it was still registered (the stop cancels it) or it had ended (its epilogue cancels it) or the connection
+was closed before (close cancels it). -/
+def stopNotCancelled (cfg : Cfg) (items : List Item) : Option String :=
+  let idx := items.zipIdx
+  let norm (id : String) := if id.isEmpty then "-" else id
+  let starts := idx.filterMap fun (it, i) => match it with
+    | .env (.clientSend (.msg w id .sub tag)) _ =>
+      if cfg.proto.toMessage w == some .start && cfg.proto.all.contains w then some (i, tag, norm id) else none
+    | _ => none
+  let stops := idx.filterMap fun (it, i) => match it with
+    | .env (.clientSend (.msg w id _ _)) _ =>
+      if cfg.proto.toMessage w == some .stop && cfg.proto.all.contains w then some (i, norm id) else none
+    | _ => none
+  idx.findSome? fun (it, k) => match it with
+    | .snap o => o.ops.findSome? fun (tag, dn, _) =>
+        if dn then none else
+        starts.findSome? fun (ps, t, id) =>
+          if t == tag && stops.any (fun (px, sid) => sid == id && ps < px && px < k) then
+            some s!"violates:stopped-operation-context-not-cancelled:id={id}"
+          else none
+    | _ => none
+
 /-- the property, evaluated directly on what the implementation showed for this script -/
 def obsSpec (cfg : Cfg) (items : List Item) (frames : List String) (snaps : List Snap) (final : Option Snap) : String :=
   let parsed := frames.map fun f => match f.splitOn ":" with
@@ -245,7 +273,11 @@ def obsSpec (cfg : Cfg) (items : List Item) (frames : List String) (snaps : List
     else if snaps.any (fun sn => !sn.cf.isEmpty && sn.ops.any (fun o => !o.2.1)) then
       "violates:operation-context-not-cancelled-after-close"
     else if snaps.any (fun sn => sn.dup) then "violates:operation-executed-twice"
+    else if snaps.any (fun sn => sn.miss) then "violates:operation-context-without-init-context-or-payload"
     else
+    match stopNotCancelled cfg items with
+    | some v => v
+    | none =>
     let tagId0 := items.filterMap fun
       | .env (.clientSend (.msg w id .sub tag)) _ =>
         if cfg.proto.toMessage w == some .start then some (tag, id) else none
